@@ -407,6 +407,7 @@ class Ctx(object):
         self.positives = {}
         self.obligations = []       # (label, lhs, rhs)
         self.checks = []            # (label, BoolSym)  must hold on this path
+        self.raw_obligations = []   # (label, smt script, on_sat)
         self.facts = []             # (label, bool) concrete structural assertions
         self.outs = []              # (label, value) for translation validation
         self.atomdefs = {}
@@ -549,6 +550,12 @@ class Ctx(object):
             self.facts.append((label, bool(b)))
         else:
             self.checks.append((label, b))
+
+    def smt_obligation(self, label, script, on_sat=None):
+        """a hand-encoded query (e.g. over integers) that must be unsat; on_sat(model)
+        -> True if the model is a confirmed counterexample on the real code"""
+        if self.mode == 'sym':
+            self.raw_obligations.append((label, script, on_sat))
 
     def fact(self, cond, label=''):
         """concrete (non-solver) assertion, e.g. on shapes and graph structure"""
